@@ -142,7 +142,7 @@ theorem C14_no_partial_output (env : Env P) (cmd : Cmd P) (fs : FS P) (ts : List
       rw [hl] at hin
       rcases List.mem_append.mp hin with h | h
       · have := hlb _ h; rw [hbadE] at this; cases this
-      · simpa using h.symm
+      · exact (List.mem_singleton.mp h).symm
     subst hbe
     have hlast : e.log.getLast? = some (Event.wait Prog.cc1 st) := by rw [hl]; simp
     -- rejected commands never run cc1
@@ -175,18 +175,20 @@ theorem C14_no_partial_output (env : Env P) (cmd : Cmd P) (fs : FS P) (ts : List
       have hfail : ∃ why, compile cmd = [Act.fail why] := by
         unfold compile
         by_cases h1 : cmd.inputs.isEmpty = true
-        · exact ⟨_, by simp [h1]⟩
+        · exact ⟨.noInput, by simp [h1]⟩
         · have h1' : cmd.inputs.isEmpty = false := by simpa using h1
           have h2 : multiO cmd = true := by
             cases hm : multiO cmd with
             | true => rfl
             | false => exact absurd ⟨h1', hm⟩ hacc
-          exact ⟨_, by simp [h1', h2]⟩
+          exact ⟨.multiO, by simp [h1', h2]⟩
       obtain ⟨why, hwhy⟩ := hfail
       rw [hwhy] at hd
       simp only [doActs, doAct] at hd
       injection hd with hd
-      have : e.log = [Event.error why] := by rw [← hd]; rfl
+      have : e.log = [Event.error why] := by
+        have := congrArg (fun x => x.1.log) hd
+        simpa [DState.emit, DState.exitWith, init] using this.symm
       rw [this] at hlast
       simp at hlast
 
@@ -271,9 +273,9 @@ theorem C14_success_outputs (env : Env P) (cmd : Cmd P) (fs : FS P) (ts : List P
         have hframe : y.2.get p = fs.get p := by
           apply hI.frame p (by rw [← htf]; exact hpt)
           intro u hu huu e'
-          exact hp (e' ▸ unitOutput_requested hu huu)
+          exact hp (by rw [← e']; exact unitOutput_requested hu huu)
         by_cases hl : cmd.mode = .link ∧ y.1.ldArgs ≠ []
-        · rw [if_pos hl, FS.get_set_ne _ _ (fun e' => hp (e' ▸ hexe hl.1))]
+        · rw [if_pos hl, FS.get_set_ne _ _ (fun e' => hp (by rw [e']; exact hexe hl.1))]
           exact hframe
         · rw [if_neg hl]; exact hframe
   · exfalso
